@@ -141,6 +141,10 @@ def run(ctx, chk):
 
     # ---- D3 draw translates code points <= 255 through the active table ---------------
     translate(ctx, chk, ref)
+    # bytes reach draw() as the code points of the same value in 8-bit mode (otherwise 0x80..0xff would
+    # never be looked up in the table at all): the 8-bit clause of C11
+    from .rules_c02 import r_stream
+    r_stream(ctx, chk, 'C20', only_8bit=True)
 
     # ---- D4 R-FSM: designators and shifts reach the screen iff not UTF-8 --------------
     tables = r3.dispatch_tables(ctx, chk, quiet=True)
@@ -165,7 +169,10 @@ def translate(ctx, chk, ref):
     n = 0
     for active in (0, 1):
         for (g0n, g1n) in (('IBMPC_MAP', 'VT100_MAP'), ('LAT1_MAP', 'VAX42_MAP')):
-            for cp in (0x21, 0x41, 0x5f, 0x60, 0x6a, 0x71, 0x7e, 0x80, 0xa3, 0xdb, 0xe9, 0xff, 0x100, 0x2502, 0x4e2d, 0x1f600):
+            cps = (0x21, 0x41, 0x5f, 0x60, 0x6a, 0x71, 0x7e, 0x80, 0xa3, 0xdb, 0xe9, 0xff, 0x100, 0x2502, 0x4e2d, 0x1f600)
+            if ctx.tier == 'thorough':
+                cps = tuple(range(0x20, 0x7f)) + tuple(range(0xa0, 0x100)) + (0x80, 0x9b, 0x100, 0x2502, 0x4e2d, 0x1f600)
+            for cp in cps:
                 eng = Engine(prog, ctx.eff, config=dict(max_steps=200000, check_inv=False))
                 st = State()
                 inv.screen_init(eng, st)
